@@ -71,6 +71,11 @@ TOPOS = {
                     invs=[(1, 'VCPU'), (2, 'VCPU'), (1, 'MEMORY_MB'),
                           (2, 'MEMORY_MB')], sure=[(3, 'DISK_GB')],
                     sure_aggs=[(1, 1), (2, 1), (3, 1)], sure_sharing=[3]),
+    # a root with two "numa" children that each offer several classes
+    'numa': Topo('numa', {1: None, 2: 1, 3: 1}, invs=[(2, 'DISK_GB'),
+                                                       (3, 'DISK_GB')],
+                 sure=[(2, 'VCPU'), (3, 'VCPU'), (2, 'MEMORY_MB'),
+                       (3, 'MEMORY_MB')]),
     'two-i': TWO.but(sure=[(1, 'VCPU'), (3, 'DISK_GB')],
                      invs=[(2, 'VCPU'), (3, 'VCPU'), (2, 'DISK_GB')]),
 }
@@ -147,6 +152,16 @@ def QUERIES(tier):
         '1+2-isolate@1.33': Query({'_1': G({'VCPU': None}),
                                    '_2': G({'VCPU': 1})}, policy='isolate',
                                   version='1.33'),
+        # several same_subtree constraints, each of which must hold
+        'A+B+C-2subtrees': Query({'_A': G({'VCPU': 1}),
+                                  '_B': G({'MEMORY_MB': 1}),
+                                  '_C': G({'DISK_GB': None})}, policy='none',
+                                 subtrees=[['_A', '_B'], ['_B', '_C']]),
+        'A+B+C-2subtrees-rev': Query({'_A': G({'VCPU': 1}),
+                                      '_B': G({'MEMORY_MB': 1}),
+                                      '_C': G({'DISK_GB': None})},
+                                     policy='none',
+                                     subtrees=[['_B', '_C'], ['_A', '_B']]),
         'u+1-forb-req': Query({'': G({'VCPU': None}, forb=[T1]),
                                '_1': G({'VCPU': 1}, req=[[T1]])},
                               policy='none'),
@@ -163,9 +178,10 @@ QUICK = [('flat', 'u-vcpu-disk', False), ('tree-t', 'u-req', False),
          ('two', 'u-vcpu-disk', True), ('tree-a', 'u-notmember', False),
          ('tree', 'u+1+2-nonadj', False), ('flat-t', 'u+D-rootreq', False),
          ('flat', 'u+D-root-notsharing', False), ('three', 'u-3rc', False),
-         ('flat-a', 'u-mem+D', False)]
+         ('flat-a', 'u-mem+D', False), ('numa', 'A+B+C-2subtrees', False)]
 
 THOROUGH_EXTRA = [
+    ('numa', 'A+B+C-2subtrees-rev', False), ('numa', '1+2-subtree', False),
     ('tree', '1+2-none@1.28', False), ('tree', '1+2-isolate@1.33', False),
     ('flat-a', 'D+u-mem', False), ('tree-a', 'u-mem+D', False),
     ('flat-a', 'u-forbmem+D', False), ('tree', 'u-intree+D', False),
